@@ -4,7 +4,7 @@ def _b(unit, functions, props, extra=None):
     j = {"name": "bcrypt_" + unit, "props": props, "functions": functions,
          "harness": "harness/bcrypt.c", "defs": ["B_%s=1" % unit],
          "verif_src": ["models/strings.c"],
-         "unwind": 25, "mem_gb": 4, "timeout": 600, "no_native": True, "wip": True}
+         "unwind": 25, "mem_gb": 4, "timeout": 600, "no_native": True}
     j.update(extra or {})
     return j
 
@@ -44,8 +44,15 @@ BF_LOOPS = [
      "invariant": "count >= 1 && count <= 64", "decreases": "count"},
 ]
 JOBS.append(_b("crypt", ["BF_crypt", "BF_set_key", "BF_swap", "BF_decode", "BF_encode"], ["C05", "C10", "C11", "C03", "C01", "C02", "C04"],
-               {"loops": BF_LOOPS, "dfcc": {"apply_loop_contracts": True}, "unwind": 82, "mem_gb": 8, "timeout": 1800}))
+               {"loops": BF_LOOPS, "dfcc": {"apply_loop_contracts": True}, "unwind": 82, "mem_gb": 8, "timeout": 1800,
+                # not discharged: DFCC instrumentation of the ten Eksblowfish loops yields 770k SSA steps / 27k VCCs and
+                # the propositional reduction runs out of memory at 40 GB (DESIGN.md 10.6); kept for a larger machine
+                "wip": True}))
 
-JOBS.append(_b("full", ["BF_full_crypt", "BF_set_key"], ["C05", "C04", "C03", "C01", "C06", "C09"],
+JOBS.append(_b("full", ["BF_full_crypt", "BF_set_key"], ["C05", "C04", "C03", "C01", "C11", "C09"],
                {"replace_calls": ["BF_crypt:bf_crypt_stub"], "unwind": 82, "timeout": 900,
                 "assumptions": ["BF_crypt replaced by its contract (enforced by bcrypt_crypt where that job completes)"]}))
+
+JOBS.append(_b("reject", ["BF_crypt", "BF_decode"], ["C05", "C11", "C04"],
+               {"unwind": 8, "unwindset": ["BF_crypt.%d:1" % i for i in range(10)] + ["BF_set_key.0:1", "BF_set_key.1:1", "BF_swap.0:1"],
+                "unreachable_loops": r"^BF_(crypt|set_key|swap)\.unwind", "timeout": 900}))
